@@ -8,8 +8,10 @@
   How probabilities are stated.  `E g d` is the expectation of a test function `g` under the list
   distribution `d`.  Laws are stated as *generating functions*: an identity
   `E (∏ᵢ xᵢ ^ countᵢ) d = F x` for all rational `x` fixes every joint probability of the counts
-  (two polynomials that agree on ℚⁿ have the same coefficients — that last, standard step is NOT
-  formalised here).  Independence across modes is stated for ALL product test functions
+  (two polynomials that agree on ℚⁿ have the same coefficients — formalised in `gf_determines_law`,
+  `Polynomial.funext` over the infinite field ℚ, and used in the section "individual probabilities"
+  below: `photon_count_pmf`, `photon_number_pmf`, `photon_count_joint_pmf`, `tag_pmf`,
+  `prob_table_eq_counts`).  Independence across modes is stated for ALL product test functions
   (`dist_tensor`), which contains all indicator functions, hence the joint law itself.
 
   Threshold.  `generate_distribution` always trims with `max(prob_threshold, 1e-16)`.  The exact
@@ -17,13 +19,19 @@
   untrimmed product, i.e. the model at threshold `0` (`generateAt P 0`); theorems that are about the
   product law are stated there.  What trimming at a positive threshold does (drops entries, then
   renormalises) is in the model (`generate`), is compared with the code on every run, and is covered
-  here only by `generate_normalised` (the result has mass one whatever the threshold),
-  `trimming_only_removes` (the trimmed product is dominated by the exact one), `tags_fresh` and
-  `perfect_source_id` (any threshold `< 1`).
+  here by `generate_normalised` (the result has mass one whatever the threshold),
+  `trimming_only_removes` (the trimmed product is dominated by the exact one), `tags_fresh`,
+  `perfect_source_id` (any threshold `< 1`) and, quantitatively, `trimmed_mass_ge` /
+  `generate_close_to_exact`: the trimming removes at most `θ · lossCount ns` of the mass and the
+  returned (renormalised) distribution is within that distance, event by event, of the exact product law
+  (`lossCount ns ≤ 9 · #modes · 5^(Σ nᵢ)` counts the places where an entry `≤ θ` can be dropped).
 -/
 import PercevalModel.Lemmas.C06
 import PercevalModel.Lemmas.C06Fresh
 import PercevalModel.Lemmas.C06Trim
+import PercevalModel.Lemmas.C06Coeff
+import PercevalModel.Lemmas.C06Cat
+import PercevalModel.Lemmas.C06Loss
 import PercevalModel.Model.C06Proc
 
 namespace PM.C06
@@ -376,6 +384,222 @@ theorem proc_assign_clean (heap : ℕ → NoiseVal) (ref : ℕ) (ops : List Proc
     (procAfter heap ref (ops ++ [.assign id])).ref = id := by
   simp [procAfter, SM.exec_append, SM.exec_cons, SM.exec_nil, procStep]
 
+
+/-! ### individual probabilities (from the generating functions to their coefficients) -/
+
+/-- The step from generating functions to probabilities: two list distributions whose (weighted) count
+generating functions agree at every rational argument give every value of the count the same weight.
+(Both sides are polynomials in `y`; ℚ is infinite; the weight of `{count = k}` is the `k`-th
+coefficient.)  With `w = w' = 1` these are the probabilities of `{count = k}`. -/
+theorem gf_determines_law {α β : Type} (w : α → ℚ) (c : α → ℕ) (d : Dist α) (w' : β → ℚ) (c' : β → ℕ)
+    (d' : Dist β)
+    (h : ∀ y : ℚ, E (fun x => w x * y ^ c x) d = E (fun x => w' x * y ^ c' x) d') (k : ℕ) :
+    E (fun x => if c x = k then w x else 0) d = E (fun x => if c' x = k then w' x else 0) d' :=
+  law_of_gf w c d w' c' d' h k
+
+/-- `probability_distribution(n)` delivers exactly `k` photons with probability
+`countCoeff p0 π1 π2 n k = Σ_{l ≤ k/2} C(n, k−l) · C(k−l, l) · p0^(n−k+l) · π1^(k−2l) · π2^l`
+(`l` = number of requested photons that deliver two).  For one requested photon these are
+`p0, π1, π2, 0, 0, …`; no photon at all has probability `p0^n`. -/
+theorem photon_count_pmf {P : Params} (hP : P.WF) (n t k : ℕ) :
+    massP (fun m => decide (m.length = k)) (probDist P 0 n t) =
+      countCoeff (p0 P) (pi1 P) (pi2 P) n k ∧
+    countCoeff (p0 P) (pi1 P) (pi2 P) n k =
+      ∑ l ∈ Finset.range (k / 2 + 1), ((n.choose (k - l) : ℚ) * ((k - l).choose l : ℚ) *
+        p0 P ^ (n - (k - l)) * pi1 P ^ (k - l - l) * pi2 P ^ l) ∧
+    countCoeff (p0 P) (pi1 P) (pi2 P) n 0 = p0 P ^ n ∧
+    (countCoeff (p0 P) (pi1 P) (pi2 P) 1 0 = p0 P ∧ countCoeff (p0 P) (pi1 P) (pi2 P) 1 1 = pi1 P ∧
+      countCoeff (p0 P) (pi1 P) (pi2 P) 1 2 = pi2 P ∧
+      ∀ k, 2 < k → countCoeff (p0 P) (pi1 P) (pi2 P) 1 k = 0) :=
+  ⟨probDist_count_point hP n t k, rfl, countCoeff_zero _ _ _ n, countCoeff_one _ _ _⟩
+
+/-- Law of the total photon number of the generated mixture, probability by probability: the trinomial
+law with `N = Σ nᵢ` trials (coefficient-wise form of `photon_number_law`). -/
+theorem photon_number_pmf {P : Params} (hP : P.WF) {ns : List ℕ} (hne : ns ≠ []) (t k : ℕ) :
+    massP (fun s => decide (photons s = k)) (generateAt P 0 ns t) =
+      countCoeff (p0 P) (pi1 P) (pi2 P) ns.sum k :=
+  generateAt_photons_point hP hne t k
+
+/-- Joint law of the photon counts per mode, probability by probability: mode `i` holds `ks[i]` photons
+for every `i` with probability `∏ᵢ countCoeff p0 π1 π2 nᵢ kᵢ` (coefficient-wise form of
+`photon_count_marginal`); a list `ks` of the wrong length has probability `0`. -/
+theorem photon_count_joint_pmf {P : Params} (hP : P.WF) {ns : List ℕ} (hne : ns ≠ []) (t : ℕ)
+    (ks : List ℕ) :
+    massP (fun s => decide (s.map List.length = ks)) (generateAt P 0 ns t) =
+      if ks.length = ns.length then (List.zipWith (countCoeff (p0 P) (pi1 P) (pi2 P)) ns ks).prod
+      else 0 :=
+  generateAt_counts_point hP hne t ks
+
+/-- Tag law, probability by probability (coefficient-wise form of `tag_law`): the joint law of
+(number of photons with the common tag, number of photons with a fresh tag) in the generated mixture is
+the law of the componentwise sum of `N = Σ nᵢ` independent draws from the physical description of one
+requested photon `physOne P` (nothing emitted `1−β`; the signal `p1`; signal + extra `p2`; every emitted
+photon survives with probability `η`; the signal is common with probability `r`, the extra photon is
+fresh or common according to the multiphoton model). -/
+theorem tag_pmf {P : Params} (hP : P.WF) {ns : List ℕ} (hne : ns ≠ []) (t u v : ℕ) :
+    massP (fun s => decide (nCommon s = u ∧ nFresh s = v)) (generateAt P 0 ns t) =
+      massP (fun l => decide ((l.map Prod.fst).sum = u ∧ (l.map Prod.snd).sum = v))
+        (iid (physOne P) ns.sum) ∧
+    NonNeg (iid (physOne P) ns.sum) ∧ mass (iid (physOne P) ns.sum) = 1 :=
+  ⟨generateAt_tags_point hP hne t (physOne P) (physOne_gf P) u v,
+    iid_NonNeg _ (physOne_NonNeg hP) _, by rw [mass_iid, physOne_mass, one_pow]⟩
+
+/-- One requested photon, probability by probability, with the class of the tags: it delivers `u` photons
+with the common tag and `v` with a fresh tag with the probability the physical description gives, explicitly
+(`p1to1 = η p1`, `p2to1 = η(1−η) p2`, `p2to2 = η² p2`, `r = √I`):
+nothing `p0`; one common `r (p1to1 + p2to1)` (+ `p2to1` in the "indistinguishable" model); one fresh
+`(1−r)(p1to1 + p2to1)` (+ `p2to1` in the "distinguishable" model); two common `r·p2to2` ("indistinguishable"
+only); one common + one fresh `r·p2to2` ("distinguishable") or `(1−r)·p2to2` ("indistinguishable"); two fresh
+`(1−r)·p2to2` ("distinguishable" only). -/
+theorem tag_class_one {P : Params} (hP : P.WF) (t : ℕ) :
+    (∀ u v, massP (fun m => decide (mCommon m = u ∧ mFresh m = v)) (onePhoton P t) =
+      massP (fun x => decide (x = (u, v))) (physOne P)) ∧
+    massP (fun x => decide (x = (0, 0))) (physOne P) = p0 P ∧
+    massP (fun x => decide (x = (1, 0))) (physOne P) =
+      P.r * (p11 P + p21 P) + (if P.dm then 0 else p21 P) ∧
+    massP (fun x => decide (x = (0, 1))) (physOne P) =
+      (1 - P.r) * (p11 P + p21 P) + (if P.dm then p21 P else 0) ∧
+    massP (fun x => decide (x = (2, 0))) (physOne P) = (if P.dm then 0 else P.r * p22 P) ∧
+    massP (fun x => decide (x = (1, 1))) (physOne P) =
+      (if P.dm then P.r * p22 P else (1 - P.r) * p22 P) ∧
+    massP (fun x => decide (x = (0, 2))) (physOne P) = (if P.dm then (1 - P.r) * p22 P else 0) :=
+  ⟨onePhoton_class hP t, physOne_point P⟩
+
+/-- Independence across modes, probability by probability: for ANY observable `κ` of a mode whose law under
+`probability_distribution(n)` is `F n` (whatever the tag counter), the joint law of `(κ(mode 0), κ(mode 1), …)`
+in the generated mixture is the product `∏ᵢ F nᵢ cᵢ` (event-level form of `dist_tensor`). -/
+theorem modes_independent_pmf {K : Type} [DecidableEq K] {P : Params} (hP : P.WF) (κ : Mode → K)
+    (F : ℕ → K → ℚ)
+    (hF : ∀ n t c, massP (fun m => decide (κ m = c)) (probDist P 0 n t) = F n c)
+    {ns : List ℕ} (hne : ns ≠ []) (t : ℕ) (cs : List K) :
+    massP (fun s => decide (s.map κ = cs)) (generateAt P 0 ns t) =
+      if cs.length = ns.length then (List.zipWith F ns cs).prod else 0 :=
+  generateAt_key_point hP κ F hF hne t cs
+
+/-- Joint tag law per mode, probability by probability: mode `i` holds `cs[i].1` photons with the common tag
+and `cs[i].2` photons with a fresh tag, for every `i`, with probability `∏ᵢ Pr[sum of nᵢ independent draws of
+physOne = cs[i]]`. -/
+theorem tag_joint_pmf {P : Params} (hP : P.WF) {ns : List ℕ} (hne : ns ≠ []) (t : ℕ)
+    (cs : List (ℕ × ℕ)) :
+    massP (fun s => decide (s.map (fun m => (mCommon m, mFresh m)) = cs)) (generateAt P 0 ns t) =
+      if cs.length = ns.length then
+        (List.zipWith (fun n c => massP
+          (fun l : List (ℕ × ℕ) => decide (((l.map Prod.fst).sum, (l.map Prod.snd).sum) = c))
+          (iid (physOne P) n)) ns cs).prod
+      else 0 :=
+  generateAt_key_point hP _ _ (fun n t c => probDist_class_point hP n t c) hne t cs
+
+/-! ### the event table is the law of the per-photon categorical counts -/
+
+/-- DESIGN's `prob_table_eq_counts`.  Classify each of the `n` requested photons independently as
+"signal alone / extra photon alone / both / nothing" with the four numbers of `_compute_prob_table`
+(`catDist P`); the event of a sequence of categories is its triple of counts (`catCounts`).  Then
+* the keys of the table (filtered or not) are pairwise different — `prob_table[(i,j,k)] = …` never
+  overwrites, the list of the model is a faithful picture of the dict;
+* every entry of the unfiltered table is exactly the probability of its event;
+* the probability of EVERY triple `(i, j, k)` — in the table or not (the truthiness short-cuts of the loops
+  leave out keys) — is the multinomial `n!/(i! j! k! (n−i−j−k)!) · p_signal^i p_g2^j p_duo^k p0^(n−i−j−k)` when
+  `i + j + k ≤ n` and `0` otherwise, and it is the weight the table gives to that key;
+* the categorical draws are a probability law (non-negative, mass one). -/
+theorem prob_table_eq_counts {P : Params} (hP : P.WF) (n : ℕ) :
+    (∀ f, ((table P n f).map Prod.fst).Nodup) ∧
+    (∀ e ∈ table P n 0,
+      e.2 = massP (fun l => decide (catCounts l = e.1)) (iid (catDist P) n)) ∧
+    (∀ i j k, massP (fun l => decide (catCounts l = (i, j, k))) (iid (catDist P) n) =
+        (if i + j + k ≤ n then coef (pSignal P) (pG2 P) (pDuo P) (pNone P) n i j k else 0) ∧
+      massP (fun l => decide (catCounts l = (i, j, k))) (iid (catDist P) n) =
+        massP (fun e => decide (e = (i, j, k))) (table P n 0)) ∧
+    (NonNeg (iid (catDist P) n) ∧ mass (iid (catDist P) n) = 1) := by
+  have hk : ∀ f, ((table P n f).map Prod.fst).Nodup := by
+    intro f
+    have h := tableRawOf_keys_nodup (pSignal P) (pG2 P) (pDuo P) (pNone P) n f
+    unfold table
+    split
+    · exact h
+    · simpa [tableRaw, List.map_map, Function.comp_def] using h
+  refine ⟨hk, ?_, ?_, iid_NonNeg _ (catDist_NonNeg hP) n, ?_⟩
+  · intro e he
+    rw [← massP_key_of_nodup (table P n 0) (hk 0) e he]
+    obtain ⟨i, j, k⟩ := e.1
+    exact table_eq_cat_counts P n i j k
+  · intro i j k
+    have h1 := table_eq_cat_counts P n i j k
+    refine ⟨?_, h1.symm⟩
+    rw [← h1, massP]
+    have h2 := table_point (pSignal P) (pG2 P) (pDuo P) (pNone P) n i j k
+    simp only [table, if_true, tableRaw]
+    rw [← h2]
+    apply E_congr
+    intro e
+    simp
+  · rw [mass_iid, catDist_mass, one_pow]
+
+/-- … and these categorical draws are the per-photon structure of the generated mixture (`dist_tensor`):
+with the tags `_events_to_samples` attaches to an event (signal photon common with probability `r`, extra
+photon fresh or common according to the model; `catTag P`) `N = Σ nᵢ` independent categorical draws give
+the joint law of (common-tag photons, fresh-tag photons) of `generate_distribution`, and the photon number
+of the events (`i + j + 2k`) has, under the table as under the categorical draws, the law of the photon
+number of `generate_distribution` — probability by probability. -/
+theorem prob_table_counts_match_distribution {P : Params} (hP : P.WF) {ns : List ℕ} (hne : ns ≠ [])
+    (t : ℕ) :
+    (∀ u v, massP (fun s => decide (nCommon s = u ∧ nFresh s = v)) (generateAt P 0 ns t) =
+      massP (fun l => decide ((l.map Prod.fst).sum = u ∧ (l.map Prod.snd).sum = v))
+        (iid (catTag P) ns.sum)) ∧
+    (∀ k, massP (fun s => decide (photons s = k)) (generateAt P 0 ns t) =
+      massP (fun e => decide (evPhotons e = k)) (table P ns.sum 0)) ∧
+    (∀ k, massP (fun s => decide (photons s = k)) (generateAt P 0 ns t) =
+      massP (fun l => decide (evPhotons (catCounts l) = k)) (iid (catDist P) ns.sum)) ∧
+    (NonNeg (iid (catTag P) ns.sum) ∧ mass (iid (catTag P) ns.sum) = 1) := by
+  refine ⟨fun u v => generateAt_tags_point hP hne t (catTag P) (catTag_gf P) u v, fun k => ?_,
+    fun k => ?_, iid_NonNeg _ (catTag_NonNeg hP) _, by rw [mass_iid, catTag_mass, one_pow]⟩
+  · exact law_of_gf_count photons _ evPhotons _
+      (fun y => (prob_table_matches_distribution hP hne t y).symm) k
+  · refine law_of_gf_count photons _ (fun l => evPhotons (catCounts l)) _ (fun y => ?_) k
+    rw [photon_number_law hP hne]
+    have h := E_iid_cat P y y (y ^ 2) ns.sum
+    rw [E_congr (g' := fun l => y ^ evPhotons (catCounts l))
+      (fun l => by simp only [evPhotons, pow_add, pow_mul])] at h
+    rw [h]
+    congr 1
+    simp only [poly, pSignal, pG2, pDuo, pNone, p0, pi1, pi2]
+    ring
+
+/-! ### how much the trimming removes -/
+
+/-- Quantitative trimming bound: at any threshold `θ ≥ 0` the product, before normalisation, keeps at least
+`1 − θ · lossCount ns` of the mass.  `lossCount ns` (a function of the input only) counts the places where
+an entry of weight `≤ θ` can be dropped: the trims of the factors and the nodes of the two depth-first
+products; `lossCount ns ≤ 9 · #modes · 5^(Σ nᵢ)`. -/
+theorem trimmed_mass_ge {P : Params} (hP : P.WF) (θ : ℚ) (hθ : 0 ≤ θ) {ns : List ℕ} (hne : ns ≠ [])
+    (t : ℕ) :
+    1 - θ * (lossCount ns : ℚ) ≤ mass (generateRaw P θ ns t) ∧
+    lossCount ns ≤ 9 * (ns.length * 5 ^ ns.sum) :=
+  ⟨mass_generateRaw_ge hP θ hθ hne t, lossCount_le ns⟩
+
+/-- … hence the distribution `generate_distribution` returns (trimmed at `max(prob_threshold, 1e-16)`, then
+renormalised) is close to the exact product law in total variation: every event — every test function with
+values in `[0, 1]` — gets a probability within `θ · lossCount ns` of the exact one, `θ` the effective
+threshold (no smallness assumption: when the bound exceeds 1 it holds trivially).  With the default threshold
+this is `lossCount ns / 10^16`. -/
+theorem generate_close_to_exact {P : Params} (hP : P.WF) (thr : ℚ) {ns : List ℕ} (hne : ns ≠ []) (t : ℕ)
+    (g : State → ℚ) (hg0 : ∀ s, 0 ≤ g s) (hg1 : ∀ s, g s ≤ 1) :
+    |E g (generate P thr ns t) - E g (generateAt P 0 ns t)| ≤ max thr minP * (lossCount ns : ℚ) ∧
+    (thr ≤ minP → max thr minP * (lossCount ns : ℚ) = (lossCount ns : ℚ) / 10 ^ 16) := by
+  have hθ : (0 : ℚ) ≤ max thr minP := le_max_of_le_right (by norm_num [minP])
+  refine ⟨generateAt_close_all hP _ hθ hne t g hg0 hg1, fun h => ?_⟩
+  rw [max_eq_right h, minP]
+  ring
+
+/-- Example of use: the probability of `k` photons in the RETURNED distribution (default or any threshold)
+is within `θ · lossCount ns` of the trinomial coefficient. -/
+theorem generate_photon_number_close {P : Params} (hP : P.WF) (thr : ℚ) {ns : List ℕ} (hne : ns ≠ [])
+    (t k : ℕ) :
+    |massP (fun s => decide (photons s = k)) (generate P thr ns t) -
+      countCoeff (p0 P) (pi1 P) (pi2 P) ns.sum k| ≤ max thr minP * (lossCount ns : ℚ) := by
+  rw [← photon_number_pmf hP hne t k]
+  exact (generate_close_to_exact hP thr hne t _ (fun s => by split <;> norm_num)
+    (fun s => by split <;> norm_num)).1
+
 /-! ### non-vacuity -/
 
 /-- every imperfection switched on, "distinguishable" model -/
@@ -435,5 +659,27 @@ example : (procAfter (fun _ => exNoise 1) 0 exHist).dirty = false ∧
 example : (procAfter (fun _ => exNoise 1) 0 [.mutate 0 (exNoise (1 / 2))]).src.beta = 1 ∧
     ((procAfter (fun _ => exNoise 1) 0 [.mutate 0 (exNoise (1 / 2))]).heap 0).params.beta = 1 / 2 := by
   simp [procAfter, SM.exec_cons, SM.exec_nil, procStep, Proc.init, exNoise, NoiseVal.params, ofNoise]
+
+-- hypotheses of `photon_count_pmf`, `photon_number_pmf`, `photon_count_joint_pmf`, `tag_pmf`,
+-- `prob_table_eq_counts`, `prob_table_counts_match_distribution`, `trimmed_mass_ge`: `exP_WF`, a non-empty
+-- input and a threshold `≥ 0` (above); `gf_determines_law`: its hypothesis holds for the one-photon
+-- distribution against the explicit three-point law
+example : ∀ y : ℚ, E (fun m : Mode => (fun _ => (1 : ℚ)) m * y ^ m.length) (onePhoton exP 0) =
+    E (fun k : ℕ => (fun _ => (1 : ℚ)) k * y ^ k) [(0, p0 exP), (1, pi1 exP), (2, pi2 exP)] := by
+  intro y
+  simp only [one_mul, cnt_onePhoton exP_WF, poly, E_cons, E_nil]
+  ring
+-- hypothesis `hF` of `modes_independent_pmf`: the photon count of a mode is such an observable
+example : ∀ n t c, massP (fun m : Mode => decide (m.length = c)) (probDist exP 0 n t) =
+    countCoeff (p0 exP) (pi1 exP) (pi2 exP) n c := fun n t c => probDist_count_point exP_WF n t c
+-- the coefficients are not trivial: two photons from two requested photons
+example : countCoeff (p0 exP) (pi1 exP) (pi2 exP) 2 2 = pi1 exP ^ 2 + 2 * p0 exP * pi2 exP := by
+  simp [countCoeff, triTerm, Finset.sum_range_succ]
+-- the bound of `generate_close_to_exact` / `generate_photon_number_close` is informative (< 1, here 4e-15)
+-- at the default threshold: two modes with one photon each
+example : max (0 : ℚ) minP * (lossCount [1, 1] : ℚ) < 1 := by
+  have : lossCount [1, 1] = 40 := by decide
+  rw [this]
+  norm_num [minP]
 
 end PM.C06
